@@ -61,7 +61,8 @@ def _ctor(draw):
     k = draw(st.integers(0, 4))
     nm = draw(st.lists(st.sampled_from(NAMES), min_size=k, max_size=k, unique=True))
     vals = [draw(_value(n)) for _ in nm]
-    return {"n": n, "names": nm, "vals": vals}
+    return {"n": n, "names": nm, "vals": vals,
+            "form": draw(st.sampled_from(["dict", "dict", "kwargs", "pairs", "frame_plus_kwargs", "dict_plus_kwargs"]))}
 
 
 @st.composite
@@ -198,8 +199,26 @@ def _construct(c, ctx):
     lens = ["scalar" if l == "zerod" else l for l in lens]
     target = max([1 if l == "scalar" else l for l in lens if l != "twod"], default=0)
     bad = "twod" in lens or any(l not in (1, target) for l in real) or (target == 0 and ("scalar" in lens or 1 in real)) or zerod
+    form = c.get("form", "dict")
     try:
-        data = di.DataFrame(kw)
+        if form == "kwargs":
+            data = di.DataFrame(**kw)
+        elif form == "pairs":
+            data = di.DataFrame(list(kw.items()))
+        elif form in ("frame_plus_kwargs", "dict_plus_kwargs") and len(kw) >= 2:
+            # "args and kwargs like for dict": a mapping (an existing frame, or a plain dict) plus keyword columns
+            half = len(kw) // 2
+            first, rest = dict(list(kw.items())[:half]), dict(list(kw.items())[half:])
+            base = first
+            if form == "frame_plus_kwargs":
+                try:
+                    base = di.DataFrame(first)
+                except Exception:
+                    base = first
+            data = di.DataFrame(base, **rest)
+            ctx.cls("ctor_" + form)
+        else:
+            data = di.DataFrame(kw)
     except Exception as e:
         if not bad and not (target == 0 and lens):
             raise Violation("constructor raised on values of consistent length", lens=lens, exc=f"{type(e).__name__}: {e}")
